@@ -2,7 +2,7 @@
 # usage: tools/run_seeds.sh [seed dir names...]   (default: all under /verif/seeded)
 # Runs the quick check of the seeded change's property against a scratch copy of /repo with the change applied.
 # Evidence / replays of these runs go to a scratch directory, never to /verif/evidence.
-cd /verif
+cd "$(dirname "$0")/.."
 OUT=${SEED_OUT:-/tmp/seedruns}
 mkdir -p "$OUT"
 [ $# -eq 0 ] && set -- $(ls seeded)
